@@ -454,8 +454,10 @@ class Ctx:
             "coverage": cov, "assumptions": self.assumptions, "wall_s": round(wall, 2),
             "violations": len(self.violations),
         }
-        os.makedirs(EVID, exist_ok=True)
-        with open(os.path.join(EVID, self.pid + ".json"), "w") as f:
+        # ids outside properties.jsonl (X..: growth of the specification over unlisted components) keep their evidence apart
+        evid = EVID if self.pid.startswith("C") or ALT else os.path.join(VERIF, "extras", "evidence")
+        os.makedirs(evid, exist_ok=True)
+        with open(os.path.join(evid, self.pid + ".json"), "w") as f:
             json.dump(ev, f, indent=1)
             f.write("\n")
         shutil.rmtree(self.tmp, ignore_errors=True)
